@@ -160,11 +160,9 @@ HASHES = ['SHA1', 'SHA224', 'SHA256', 'SHA384', 'SHA512', 'SHA512-224',
           'SHA512-256', 'SHA3-224', 'SHA3-256', 'SHA3-384', 'SHA3-512']
 CIPHERS = ['DES-EDE3-CBC', 'AES128-CBC', 'AES192-CBC', 'AES256-CBC',
            'AES128-GCM', 'AES192-GCM', 'AES256-GCM']
-PROTECTIONS = ['PBKDF2WithHMAC-%s And%s'.replace(' ', '') % (h, c)
+PROTECTIONS = ['PBKDF2WithHMAC-%sAnd%s' % (h, c)
                for h in HASHES for c in CIPHERS] + \
               ['scryptAnd' + c for c in CIPHERS]
-HASH_TO_HASHLIB = dict((h, h.lower().replace('-', '_').replace('sha3_', 'sha3_')
-                        ) for h in HASHES)
 CIPHER_TO_MODEL = dict((c, c.lower() if c != 'DES-EDE3-CBC' else 'des-ede3-cbc')
                        for c in CIPHERS)
 PW = b'correct horse'
@@ -523,3 +521,1039 @@ def section1_ecc():
                     'protection': 'PBKDF2WithHMAC-SHA256AndAES128-CBC',
                     'prot_params': {'iteration_count': 3}}, passphrase=PW)
         log("  %s done" % kind)
+
+
+# ---------------------------------------------------------------------------
+# 2. model encoders -> library importers
+# ---------------------------------------------------------------------------
+
+def lib_import(section, label, module, blob, passphrase, want, numbers,
+               ignore=(), **kw):
+    count('model blobs imported by the library')
+    try:
+        key = module.import_key(blob, passphrase, **kw) if kw else \
+            module.import_key(blob, passphrase)
+    except Exception as e:
+        mismatch(section, "%s: library raised %s: %s" %
+                 (label, type(e).__name__, e))
+        return
+    got = numbers(key)
+    w = dict(want)
+    for k in ignore:
+        got.pop(k, None)
+        w.pop(k, None)
+    if got != w:
+        mismatch(section, "%s: library numbers differ\n   got  %r\n   want %r"
+                 % (label, got, w))
+
+
+def model_rsa_key(bits):
+    """An RSA key the library never saw, built with the model's own
+    arithmetic (primes from the library's number module are avoided)."""
+    def prime(nbits):
+        while True:
+            c = RND.getrandbits(nbits) | (1 << (nbits - 1)) | \
+                (1 << (nbits - 2)) | 1
+            if kf._is_probable_prime(c) and (c - 1) % 65537:
+                return c
+    p = prime(bits // 2)
+    q = prime(bits - bits // 2)
+    while q == p:
+        q = prime(bits - bits // 2)
+    n, e = p * q, 65537
+    from math import gcd
+    lam = (p - 1) * (q - 1) // gcd(p - 1, q - 1)
+    d = pow(e, -1, lam)
+    return {'type': 'RSA', 'private': True, 'n': n, 'e': e, 'd': d, 'p': p,
+            'q': q, 'dp': d % (p - 1), 'dq': d % (q - 1),
+            'qinv': pow(q, -1, p)}
+
+
+def encrypted_variants(inner):
+    """Encrypted PKCS#8 blobs made by the model, all schemes."""
+    out = []
+    kdfs = [('pbkdf2', h.lower().replace('-', '_')) for h in HASHES] + \
+        [('scrypt', None)]
+    ciphers = list(CIPHER_TO_MODEL.values())
+    for i, (kdf, prf) in enumerate(kdfs):
+        for j, cipher in enumerate(ciphers):
+            if QUICK and (i + j) % 3:
+                continue
+            blob = kf.pkcs8_encrypt(
+                inner, PW, kdf=kdf, prf=prf or 'sha1', cipher=cipher,
+                iterations=16 if kdf == 'scrypt' else 5 + i,
+                block_size=1, parallelization=1,
+                include_key_length=bool((i + j) % 2),
+                prf_null=bool(j % 2))
+            out.append(("PBES2 %s/%s/%s" % (kdf, prf, cipher), blob))
+    for (h, c) in kf._PBES1_BY_NAME:
+        out.append(("PBES1 %s/%s" % (h, c),
+                    kf.pbes1_encrypt(inner, PW, h, c, 7)))
+    return out
+
+
+def section2():
+    sec = '2'
+    # ---- RSA ----
+    for bits in ((1024,) if QUICK else (1024, 1031)):
+        k = model_rsa_key(bits)
+        want = kf.strip_meta(k)
+        wpub = {'type': 'RSA', 'private': False, 'n': k['n'], 'e': k['e']}
+        p1 = kf.rsa_pkcs1_private_der(k)
+        p8 = kf.rsa_pkcs8_der(k)
+        lib_import(sec, 'RSA pkcs1 DER', RSA, p1, None, want, rsa_numbers)
+        lib_import(sec, 'RSA pkcs1 PEM', RSA,
+                   kf.pem_encode(p1, 'RSA PRIVATE KEY'), None, want,
+                   rsa_numbers)
+        lib_import(sec, 'RSA pkcs8 DER', RSA, p8, None, want, rsa_numbers)
+        lib_import(sec, 'RSA pkcs8 PEM', RSA, kf.pem_encode(p8, 'PRIVATE KEY'),
+                   None, want, rsa_numbers)
+        lib_import(sec, 'RSA spki DER', RSA, kf.rsa_spki_der(k), None, wpub,
+                   rsa_numbers)
+        lib_import(sec, 'RSA spki PEM', RSA,
+                   kf.pem_encode(kf.rsa_spki_der(k), 'PUBLIC KEY',
+                                 trailing_newline=True), None, wpub,
+                   rsa_numbers)
+        lib_import(sec, 'RSA pkcs1 public DER', RSA,
+                   kf.rsa_pkcs1_public_der(k), None, wpub, rsa_numbers)
+        lib_import(sec, 'RSA pkcs1 public PEM', RSA,
+                   kf.pem_encode(kf.rsa_pkcs1_public_der(k),
+                                 'RSA PUBLIC KEY'), None, wpub, rsa_numbers)
+        lib_import(sec, 'RSA openssh public', RSA,
+                   kf.openssh_public_encode(k, 'me@host'), None, wpub,
+                   rsa_numbers)
+        # the library swaps p and q for OpenSSH private keys
+        swapped = dict(want, p=k['q'], q=k['p'], dp=k['dq'], dq=k['dp'],
+                       qinv=pow(k['p'], -1, k['q']))
+        lib_import(sec, 'RSA openssh private', RSA,
+                   kf.openssh_private_encode(k, b'comment'), None, swapped,
+                   rsa_numbers)
+        for algo in kf._DEK_ALGOS:
+            lib_import(sec, 'RSA pkcs1 PEM ' + algo, RSA,
+                       kf.pem_encode(p1, 'RSA PRIVATE KEY', PW, algo), PW,
+                       want, rsa_numbers)
+        if bits == 1024:
+            for label, blob in encrypted_variants(p8):
+                lib_import(sec, 'RSA pkcs8 ' + label, RSA, blob, PW, want,
+                           rsa_numbers)
+                lib_import(sec, 'RSA pkcs8 PEM ' + label, RSA,
+                           kf.pem_encode(blob, 'ENCRYPTED PRIVATE KEY'), PW,
+                           want, rsa_numbers)
+    # ---- DSA ----
+    p, q, g = DSA_DOMAINS[1024]
+    x = RND.randrange(1, q)
+    k = {'type': 'DSA', 'private': True, 'p': p, 'q': q, 'g': g,
+         'y': pow(g, x, p), 'x': x}
+    wpub = dict((a, b) for a, b in k.items() if a != 'x')
+    wpub['private'] = False
+    lib_import(sec, 'DSA traditional DER', DSA,
+               kf.dsa_traditional_private_der(k), None, k, dsa_numbers)
+    lib_import(sec, 'DSA traditional PEM', DSA,
+               kf.pem_encode(kf.dsa_traditional_private_der(k),
+                             'DSA PRIVATE KEY'), None, k, dsa_numbers)
+    lib_import(sec, 'DSA traditional PEM enc', DSA,
+               kf.pem_encode(kf.dsa_traditional_private_der(k),
+                             'DSA PRIVATE KEY', PW, 'AES-256-CBC'), PW, k,
+               dsa_numbers)
+    lib_import(sec, 'DSA pkcs8 DER', DSA, kf.dsa_pkcs8_der(k), None, k,
+               dsa_numbers)
+    lib_import(sec, 'DSA spki DER', DSA, kf.dsa_spki_der(k), None, wpub,
+               dsa_numbers)
+    lib_import(sec, 'DSA openssh public', DSA, kf.openssh_public_encode(k),
+               None, wpub, dsa_numbers)
+    for label, blob in encrypted_variants(kf.dsa_pkcs8_der(k))[::7]:
+        lib_import(sec, 'DSA pkcs8 ' + label, DSA, blob, PW, k, dsa_numbers)
+    # ---- ECC ----
+    for curve in ECC_CURVES:
+        c = kf.curve_by_name(curve)
+        if c.kind == 'weierstrass':
+            d = RND.randrange(1, c.n)
+            x, y = kf.ec_public_from_private(c, d)
+            k = {'type': 'ECC', 'curve': curve, 'private': True, 'd': d,
+                 'x': x, 'y': y, 'compressed': False}
+        else:
+            seed = bytes(RND.getrandbits(8) for _ in range(c.key_len))
+            k = kf.parse_raw_private(seed, c)
+        want = kf.strip_meta(k)
+        wpub = dict((a, b) for a, b in want.items() if a not in ('d', 'seed'))
+        wpub['private'] = False
+        num = lambda key: ecc_numbers(key, False)
+        lib_import(sec, curve + ' pkcs8 DER', ECC, kf.ec_pkcs8_der(k), None,
+                   want, num)
+        lib_import(sec, curve + ' pkcs8 PEM', ECC,
+                   kf.pem_encode(kf.ec_pkcs8_der(k), 'PRIVATE KEY'), None,
+                   want, num)
+        lib_import(sec, curve + ' spki DER', ECC, kf.ec_spki_der(k), None,
+                   wpub, num)
+        lib_import(sec, curve + ' spki PEM', ECC,
+                   kf.pem_encode(kf.ec_spki_der(k), 'PUBLIC KEY'), None, wpub,
+                   num)
+        if c.kind == 'weierstrass':
+            lib_import(sec, curve + ' spki compressed', ECC,
+                       kf.ec_spki_der(k, compressed=True), None, wpub, num)
+            for ip, ipub in itertools.product((True, False), repeat=2):
+                blob = kf.ec_sec1_private_der(k, ip, ipub)
+                if ip:
+                    lib_import(sec, curve + ' ECPrivateKey %s %s' % (ip, ipub),
+                               ECC, blob, None, want, num)
+                # inside PKCS#8 the parameters may be absent
+                lib_import(sec, curve + ' pkcs8(ECPrivateKey %s %s)' %
+                           (ip, ipub), ECC,
+                           kf.pkcs8_wrap(kf.OID_EC_PUBLIC_KEY, blob,
+                                         der.enc_oid(c.oid)), None, want, num)
+            lib_import(sec, curve + ' EC PRIVATE KEY PEM enc', ECC,
+                       kf.pem_encode(kf.ec_sec1_private_der(k),
+                                     'EC PRIVATE KEY', PW, 'AES-128-CBC'),
+                       PW, want, num)
+            for comp in (False, True):
+                lib_import(sec, curve + ' SEC1 point', ECC,
+                           kf.ec_sec1_point(k, comp), None, wpub, num,
+                           curve_name=curve)
+                lib_import(sec, curve + ' openssh public', ECC,
+                           kf.openssh_public_encode(k, 'c', compressed=comp),
+                           None, wpub, num)
+            lib_import(sec, curve + ' openssh private', ECC,
+                       kf.openssh_private_encode(k, b'x' * 5), None, want,
+                       num)
+        else:
+            lib_import(sec, curve + ' pkcs8 v2 with public key', ECC,
+                       kf.ec_pkcs8_der(k, v2_public=True), None, want, num)
+            if curve == 'Ed25519':
+                lib_import(sec, curve + ' openssh public', ECC,
+                           kf.openssh_public_encode(k), None, wpub, num)
+                lib_import(sec, curve + ' openssh private', ECC,
+                           kf.openssh_private_encode(k, b''), None, want, num)
+        variants = encrypted_variants(kf.ec_pkcs8_der(k))
+        for label, blob in variants[::5]:
+            lib_import(sec, curve + ' pkcs8 ' + label, ECC, blob, PW, want,
+                       num)
+        log("  section 2 %s done" % curve)
+
+
+# ---------------------------------------------------------------------------
+# 3. DER primitives
+# ---------------------------------------------------------------------------
+
+def rand_int():
+    kind = RND.randrange(6)
+    if kind == 0:
+        return RND.randrange(-300, 300)
+    if kind == 1:
+        return RND.choice([1, -1]) * (1 << RND.randrange(0, 200))
+    if kind == 2:
+        return RND.choice([1, -1]) * ((1 << RND.randrange(1, 200)) - 1)
+    if kind == 3:
+        return -(1 << (8 * RND.randrange(1, 20) - 1)) - RND.randrange(2)
+    bits = RND.randrange(1, 2100)
+    return RND.choice([1, -1]) * RND.getrandbits(bits)
+
+
+def rand_oid():
+    first = RND.randrange(3)
+    second = RND.randrange(40)
+    arcs = [first, second]
+    for _ in range(RND.randrange(0, 10)):
+        arcs.append(RND.choice([0, 1, 127, 128, 16383, 16384,
+                                RND.getrandbits(RND.randrange(1, 70))]))
+    return ".".join(str(a) for a in arcs)
+
+
+def section3():
+    sec = '3'
+    n = 300 if QUICK else 3000
+    for _ in range(n):
+        v = rand_int()
+        mine = der.enc_int(v)
+        lib = asn1.DerInteger(v).encode()
+        count('der primitives compared')
+        if mine != lib:
+            mismatch(sec, "INTEGER %d: %s vs %s" % (v, mine.hex(), lib.hex()))
+        if asn1.DerInteger().decode(mine, strict=True).value != v or \
+                der.dec_int(der.parse(lib)) != v:
+            mismatch(sec, "INTEGER %d decode" % v)
+    for _ in range(n // 3):
+        o = rand_oid()
+        mine = der.enc_oid(o)
+        lib = asn1.DerObjectId(o).encode()
+        count('der primitives compared')
+        if mine != lib:
+            mismatch(sec, "OID %s: %s vs %s" % (o, mine.hex(), lib.hex()))
+        if asn1.DerObjectId().decode(mine, strict=True).value != o or \
+                der.dec_oid(der.parse(lib)) != o:
+            mismatch(sec, "OID %s decode" % o)
+    for ln in list(range(0, 300)) + [65535, 65536, 70001]:
+        b = bytes(RND.getrandbits(8) for _ in range(ln))
+        count('der primitives compared', 2)
+        if der.enc_octets(b) != asn1.DerOctetString(b).encode():
+            mismatch(sec, "OCTET STRING len %d" % ln)
+        if der.enc_bitstring(b) != asn1.DerBitString(b).encode():
+            mismatch(sec, "BIT STRING len %d" % ln)
+        if asn1.DerOctetString().decode(der.enc_octets(b)).payload != b:
+            mismatch(sec, "OCTET STRING decode len %d" % ln)
+        if der.dec_bitstring(der.parse(asn1.DerBitString(b).encode())) != \
+                (b, 0):
+            mismatch(sec, "BIT STRING decode len %d" % ln)
+    if der.enc_null() != asn1.DerNull().encode():
+        mismatch(sec, "NULL")
+    for v in (True, False):
+        if der.enc_bool(v) != asn1.DerBoolean(v).encode():
+            mismatch(sec, "BOOLEAN")
+    # tagging
+    for tag in (0, 1, 5, 30):
+        count('der primitives compared', 4)
+        if der.enc_tagged(tag, der.enc_int(77)) != \
+                asn1.DerInteger(77, explicit=tag).encode():
+            mismatch(sec, "explicit tag %d" % tag)
+        if der.enc_tagged(tag, der.enc_int(77), explicit=False) != \
+                asn1.DerInteger(77, implicit=tag).encode():
+            mismatch(sec, "implicit tag %d" % tag)
+        if der.enc_tagged(tag, der.enc_seq([der.enc_int(1)]),
+                          explicit=False) != \
+                asn1.DerSequence([1], implicit=tag).encode():
+            mismatch(sec, "implicit constructed tag %d" % tag)
+        if der.enc_tagged(tag, der.enc_oid('1.2.3')) != \
+                asn1.DerObjectId('1.2.3', explicit=tag).encode():
+            mismatch(sec, "explicit OID tag %d" % tag)
+
+    # nested sequences / sets
+    def rand_tree(depth):
+        kind = RND.randrange(7 if depth < 4 else 5)
+        if kind == 0:
+            v = rand_int()
+            return der.enc_int(v), asn1.DerInteger(v)
+        if kind == 1:
+            o = rand_oid()
+            return der.enc_oid(o), asn1.DerObjectId(o)
+        if kind == 2:
+            b = bytes(RND.getrandbits(8) for _ in range(RND.randrange(200)))
+            return der.enc_octets(b), asn1.DerOctetString(b)
+        if kind == 3:
+            b = bytes(RND.getrandbits(8) for _ in range(RND.randrange(200)))
+            return der.enc_bitstring(b), asn1.DerBitString(b)
+        if kind == 4:
+            return der.enc_null(), asn1.DerNull()
+        items = [rand_tree(depth + 1) for _ in range(RND.randrange(0, 6))]
+        if kind == 5:
+            return der.enc_seq([i[0] for i in items]), \
+                asn1.DerSequence([i[1] for i in items])
+        # SET OF needs a single element type: integers
+        vals = [rand_int() for _ in range(RND.randrange(0, 8))]
+        return der.enc_set_of([der.enc_int(v) for v in vals]), \
+            asn1.DerSetOf(vals)
+
+    for _ in range(n // 10):
+        mine, libobj = rand_tree(0)
+        lib = libobj.encode()
+        count('der trees compared')
+        if mine != lib:
+            mismatch(sec, "tree: %s vs %s" % (mine.hex()[:80], lib.hex()[:80]))
+            continue
+        if der.strict_problems(lib) != [] or \
+                der.reencode(der.parse(lib)) != lib:
+            mismatch(sec, "tree not strict: %s" % lib.hex()[:80])
+    # SET OF with byte strings of different length (padding comparison rule)
+    for _ in range(50):
+        elems = [der.enc_octets(bytes(RND.getrandbits(8)
+                                      for _ in range(RND.randrange(0, 4))))
+                 for _ in range(RND.randrange(1, 6))]
+        elems = list(set(elems))
+        lib = asn1.DerSetOf(elems).encode()
+        count('der trees compared')
+        if der.enc_set_of(elems) != lib:
+            deviation('asn1-setof-order',
+                      "DerSetOf sorts elements with Python's bytes order; "
+                      "X.690 11.6 pads the shorter encoding with zero octets "
+                      "(differs only when one element is a prefix of another "
+                      "followed by 0x00 bytes): e.g. %s vs %s" %
+                      (lib.hex(), der.enc_set_of(elems).hex()))
+
+    # strictness: malformed / non canonical inputs, outermost TLV
+    cases = [
+        ('indefinite length', bytes.fromhex('30800201000000'), 'indefinite'),
+        ('long form < 128', bytes.fromhex('308103020100'), 'nonminimal_length'),
+        ('length leading zero', bytes.fromhex('30820003020100'),
+         'nonminimal_length'),
+        ('trailing byte', bytes.fromhex('300302010000'), 'trailing'),
+        ('truncated', bytes.fromhex('3003020100')[:-1], 'truncated'),
+        ('empty', b'', 'empty'),
+        ('length 0xff', bytes.fromhex('30ff'), 'other'),
+    ]
+    for label, blob, want_class in cases:
+        count('strictness cases')
+        got = der.classify_toplevel(blob)
+        if got != want_class:
+            mismatch(sec, "classify_toplevel(%s) = %s" % (label, got))
+        for strict in (False, True):
+            try:
+                asn1.DerSequence().decode(blob, strict=strict)
+                lib = 'accepted'
+            except ValueError:
+                lib = 'ValueError'
+            except Exception as e:
+                lib = type(e).__name__
+            if lib == 'accepted':
+                deviation('asn1-accepts-' + label,
+                          "DerSequence().decode(strict=%s) accepts %s (%s)" %
+                          (strict, label, blob.hex()))
+            elif lib != 'ValueError':
+                deviation('asn1-raises-' + label,
+                          "DerSequence().decode(%s) [%s] raises %s instead "
+                          "of ValueError" % (blob.hex(), label, lib))
+    inner_cases = [
+        ('INTEGER redundant 00', '02020001', asn1.DerInteger),
+        ('INTEGER redundant ff', '0202ff80', asn1.DerInteger),
+        ('INTEGER empty', '0200', asn1.DerInteger),
+        ('BOOLEAN 01', '010101', asn1.DerBoolean),
+        ('BIT STRING unused 8', '03020800', asn1.DerBitString),
+        ('BIT STRING unused bits non zero', '030201ff', asn1.DerBitString),
+        ('BIT STRING empty content', '0300', asn1.DerBitString),
+        ('OID leading 0x80 arc', '06038001 02'.replace(' ', ''),
+         asn1.DerObjectId),
+        ('OID truncated arc', '06022a80', asn1.DerObjectId),
+        ('OID empty', '0600', asn1.DerObjectId),
+        ('SET OF unsorted', '3106020102020101', asn1.DerSetOf),
+        ('SEQUENCE with nested non-minimal INTEGER', '300402020001',
+         asn1.DerSequence),
+        ('SEQUENCE with nested indefinite', '30053080020100'[:0] +
+         '3007308002010000 00'.replace(' ', ''), asn1.DerSequence),
+    ]
+    for label, hx, cls in inner_cases:
+        blob = bytes.fromhex(hx)
+        count('strictness cases')
+        if der.strict_problems(blob) == []:
+            mismatch(sec, "model accepts " + label)
+        for strict in (True,):
+            try:
+                cls().decode(blob, strict=strict)
+                lib = 'accepted'
+            except ValueError:
+                lib = 'ValueError'
+            except Exception as e:
+                lib = type(e).__name__
+            if lib == 'accepted':
+                deviation('asn1-strict-accepts-' + label,
+                          "%s().decode(strict=True) accepts non-DER input: "
+                          "%s (%s)" % (cls.__name__, label, hx))
+            elif lib != 'ValueError':
+                deviation('asn1-strict-raises-' + label,
+                          "%s().decode(%s) [%s] raises %s" %
+                          (cls.__name__, hx, label, lib))
+
+
+# ---------------------------------------------------------------------------
+# 4. padding and RFC 1751
+# ---------------------------------------------------------------------------
+
+def section4():
+    sec = '4'
+    sizes = range(1, 256) if not QUICK else list(range(1, 20)) + [64, 255]
+    for style in rpad.STYLES:
+        for bs in sizes:
+            for ln in range(0, 2 * bs + 1):
+                data = bytes((ln * 31 + i * 7) & 0xFF for i in range(ln))
+                count('pad cases')
+                mine = rpad.pad(data, bs, style)
+                lib = Padding.pad(data, bs, style)
+                if mine != lib:
+                    mismatch(sec, "pad(%d bytes, %d, %s)" % (ln, bs, style))
+                    break
+                if ln % 7 == 0 or ln >= 2 * bs - 1:
+                    if Padding.unpad(mine, bs, style) != data or \
+                            rpad.unpad(lib, bs, style) != data:
+                        mismatch(sec, "unpad(pad()) %d %d %s" %
+                                 (ln, bs, style))
+    # unpad on random and mutated inputs: accept / reject agreement
+    for style in rpad.STYLES:
+        for _ in range(2000 if QUICK else 20000):
+            bs = RND.choice([1, 2, 3, 4, 7, 8, 16, 17, 32, 255])
+            mode = RND.randrange(4)
+            if mode == 0:
+                ln = RND.randrange(0, 3 * bs + 1)
+                blob = bytes(RND.choice([0, 0, 1, 2, 3, bs, 0x80,
+                                         RND.getrandbits(8)])
+                             for _ in range(ln))
+            else:
+                data = bytes(RND.choice([0, 0x80, 1, bs & 0xFF,
+                                         RND.getrandbits(8)])
+                             for _ in range(RND.randrange(0, 2 * bs + 1)))
+                blob = bytearray(rpad.pad(data, bs, style))
+                if mode >= 2:
+                    pos = len(blob) - 1 - RND.randrange(min(len(blob),
+                                                            bs + 2))
+                    blob[pos] = RND.choice([0, 1, 0x80, blob[pos] ^ 1,
+                                            RND.getrandbits(8), bs & 0xFF,
+                                            (bs + 1) & 0xFF])
+                if mode == 3 and RND.randrange(2):
+                    blob = blob[:-RND.randrange(1, 3)]
+                blob = bytes(blob)
+            count('unpad cases')
+            try:
+                mine = rpad.unpad(blob, bs, style)
+            except ValueError:
+                mine = ValueError
+            try:
+                lib = Padding.unpad(blob, bs, style)
+            except ValueError:
+                lib = ValueError
+            if mine != lib:
+                mismatch(sec, "unpad(%s, %d, %s): model %r library %r" %
+                         (blob.hex(), bs, style, mine, lib))
+    # domain edges
+    for style in ('pkcs7', 'x923'):
+        try:
+            out = Padding.pad(b'x' * 10, 256, style)
+            deviation('padding-bs256-' + style,
+                      "Padding.pad(10 bytes, 256, %r) succeeds (%d bytes "
+                      "out) although a pad length must fit one octet for the "
+                      "style; pad(b'', 256, %r) raises ValueError.  The model "
+                      "restricts block_size to 1..255 for this style." %
+                      (style, len(out), style))
+        except ValueError:
+            pass
+    for bs in (0, -1):
+        for fn, arg in ((Padding.pad, b'abc'), (Padding.unpad, b'abc\x01')):
+            try:
+                r = fn(arg, bs)
+                deviation('padding-bs%d-%s' % (bs, fn.__name__),
+                          "Padding.%s(..., block_size=%d) returns %r instead "
+                          "of raising ValueError" % (fn.__name__, bs, r))
+            except ValueError:
+                pass
+            except Exception as e:
+                deviation('padding-bs%d-%s' % (bs, fn.__name__),
+                          "Padding.%s(..., block_size=%d) raises %s "
+                          "(not ValueError)" %
+                          (fn.__name__, bs, type(e).__name__))
+    # RFC 1751
+    for _ in range(300 if QUICK else 3000):
+        key = bytes(RND.getrandbits(8) for _ in range(8 * RND.randrange(0, 4)))
+        count('rfc1751 cases')
+        eng = rpad.key_to_english(key)
+        if eng != RFC1751.key_to_english(key):
+            mismatch(sec, "key_to_english(%s)" % key.hex())
+        if RFC1751.english_to_key(eng) != key or \
+                rpad.english_to_key(eng.lower()) != key:
+            mismatch(sec, "english_to_key(%r)" % eng)
+        # mutate one word: agreement on accept / reject
+        words = eng.split()
+        if words:
+            words[RND.randrange(len(words))] = RND.choice(rpad.WORDLIST)
+            txt = " ".join(words)
+            try:
+                mine = rpad.english_to_key(txt)
+            except ValueError:
+                mine = ValueError
+            try:
+                lib = RFC1751.english_to_key(txt)
+            except ValueError:
+                lib = ValueError
+            if mine != lib:
+                mismatch(sec, "english_to_key(%r): %r vs %r" %
+                         (txt, mine, lib))
+    # word count not a multiple of 6
+    accepted = 0
+    for _ in range(200):
+        words = [RND.choice(rpad.WORDLIST) for _ in range(RND.randrange(1, 6))]
+        try:
+            RFC1751.english_to_key(" ".join(words))
+            accepted += 1
+        except ValueError:
+            pass
+        except Exception as e:
+            deviation('rfc1751-short-exc',
+                      "english_to_key with %d words raises %s" %
+                      (len(words), type(e).__name__))
+    if accepted:
+        deviation('rfc1751-short',
+                  "RFC1751.english_to_key accepts %d of 200 random inputs "
+                  "with 1..5 words (missing words are treated as zero bits; "
+                  "only the 2 parity bits protect) although the number of "
+                  "words must be a multiple of 6; the model raises "
+                  "ValueError" % accepted)
+    try:
+        RFC1751.key_to_english(b'1234567')
+        mismatch(sec, "key_to_english(7 bytes) accepted by the library")
+    except ValueError:
+        pass
+
+
+# ---------------------------------------------------------------------------
+# 5. probes: where specification and library are expected to differ
+# ---------------------------------------------------------------------------
+
+def outcome(fn, *a, **kw):
+    try:
+        return ('ok', fn(*a, **kw))
+    except ValueError as e:
+        return ('ValueError', str(e))
+    except Exception as e:
+        return (type(e).__name__, str(e))
+
+
+def probe(ident, text, blob, module, passphrase=None, model_fn=None,
+          expect_model='ValueError', **kw):
+    """Feed blob to model and library.  The model must behave as
+    `expect_model` ('ValueError' or 'ok'); if the library behaves differently
+    the difference is recorded as a deviation with a reproducer."""
+    count('probes')
+    model_fn = model_fn or (lambda b, p: kf.parse_any(b, p))
+    m = outcome(model_fn, blob, passphrase)
+    if m[0] != expect_model:
+        mismatch('5', "probe %s: model outcome %r (expected %s)" %
+                 (ident, m, expect_model))
+        return
+    if kw:
+        lib = outcome(module.import_key, blob, passphrase, **kw)
+    else:
+        lib = outcome(module.import_key, blob, passphrase)
+    if lib[0] != m[0]:
+        shown = blob if isinstance(blob, str) else \
+            ("bytes.fromhex(%r)" % blob.hex() if len(blob) <= 400 else
+             "<%d bytes, see devcheck section 5 %s>" % (len(blob), ident))
+        deviation(ident, "%s\n      model: %s; library %s.import_key -> %s%s"
+                  "\n      input: %s" %
+                  (text, m[0], module.__name__.split('.')[-1], lib[0],
+                   "" if lib[0] == 'ok' else " (%s)" % lib[1][:80], shown))
+    else:
+        log("  probe %s: library agrees (%s)" % (ident, lib[0]))
+
+
+def section5():
+    c256 = kf.CURVES['NIST P-256']
+    d = RND.randrange(1, c256.n)
+    x, y = kf.ec_public_from_private(c256, d)
+    ek = {'type': 'ECC', 'curve': 'NIST P-256', 'private': True, 'd': d,
+          'x': x, 'y': y}
+    rk = model_rsa_key(1024)
+
+    # -- DER container level ------------------------------------------------
+    good = kf.rsa_pkcs1_private_der(rk)
+    probe('der-trailing', "RSAPrivateKey followed by one extra byte",
+          good + b'\x00', RSA)
+    body = good[4:]
+    probe('der-indefinite', "outer SEQUENCE in indefinite-length form (BER)",
+          b'\x30\x80' + body + b'\x00\x00', RSA)
+    probe('der-0x80-only', "length octet 0x80 with nothing after it",
+          b'\x30\x80', RSA)
+    probe('der-nonminimal-length', "outer length with a leading zero octet",
+          b'\x30\x83\x00' + good[2:4] + body, RSA)
+    nm = der.enc_seq([b'\x02\x04\x00\x01\x00\x01' if i == 2 else
+                      der.enc_int(v) for i, v in enumerate(
+                          (0, rk['n'], rk['e'], rk['d'], rk['p'], rk['q'],
+                           rk['dp'], rk['dq'], rk['qinv']))])
+    probe('der-nonminimal-integer', "RSAPrivateKey whose publicExponent is "
+          "encoded as 02 04 00 01 00 01 (redundant leading zero)", nm, RSA)
+    pub_nm = der.enc_seq([der.enc_seq([der.enc_oid(kf.OID_RSA),
+                                       der.enc_null()]),
+                          b'\x03' + der.enc_len(len(
+                              kf.rsa_pkcs1_public_der(rk)) + 1) + b'\x07' +
+                          kf.rsa_pkcs1_public_der(rk)])
+    probe('spki-bitstring-unused', "SubjectPublicKeyInfo whose BIT STRING "
+          "declares 7 unused bits", pub_nm, RSA)
+    bad_crt = dict(rk, dp=rk['dp'] + 2, dq=1, qinv=5)
+    probe('rsa-wrong-crt', "RSAPrivateKey with wrong exponent1 / exponent2 / "
+          "coefficient (the model parses the numbers and reports them with "
+          "rsa_consistency_problems; the library silently recomputes them)",
+          kf.rsa_pkcs1_private_der(bad_crt), RSA, expect_model='ok')
+    if not kf.rsa_consistency_problems(bad_crt):
+        mismatch('5', "rsa_consistency_problems missed wrong CRT values")
+
+    # -- PKCS#8 ------------------------------------------------------------------
+    p8 = kf.ec_pkcs8_der(ek)
+    probe('pkcs8-clear-with-passphrase', "clear PKCS#8 DER imported with a "
+          "passphrase (ECC.import_key documents: 'This parameter is ignored "
+          "if the key in input is not encrypted')", p8, ECC, b'unused',
+          expect_model='ok')
+    probe('pkcs8-clear-with-passphrase-rsa', "clear PKCS#8 DER (RSA) imported "
+          "with a passphrase", kf.rsa_pkcs8_der(rk), RSA, b'unused',
+          expect_model='ok')
+    c384 = kf.CURVES['NIST P-384']
+    inner = kf.ec_sec1_private_der(ek, include_params=True)
+    mism = kf.pkcs8_wrap(kf.OID_EC_PUBLIC_KEY, inner, der.enc_oid(c384.oid))
+    probe('pkcs8-ec-curve-mismatch', "PKCS#8 whose AlgorithmIdentifier names "
+          "P-384 while the inner ECPrivateKey [0] parameters name P-256",
+          mism, ECC)
+    other = dict(ek)
+    other['x'], other['y'] = kf.ec_public_from_private(c256, d ^ 1)
+    wrong_pub = der.enc_seq([
+        der.enc_int(1), der.enc_octets(kf._i2osp(d, 32)),
+        der.enc_tagged(0, der.enc_oid(c256.oid)),
+        der.enc_tagged(1, der.enc_bitstring(kf.ec_sec1_point(other)))])
+    probe('ecprivatekey-public-mismatch', "ECPrivateKey whose publicKey is "
+          "not d*G", wrong_pub, ECC)
+    short = der.enc_seq([der.enc_int(1), der.enc_octets(b'\x05'),
+                         der.enc_tagged(0, der.enc_oid(c256.oid))])
+    probe('ecprivatekey-short-scalar', "ECPrivateKey with a 1-octet "
+          "privateKey (RFC 5915: ceil(log2(n)/8) octets)", short, ECC)
+    seed = bytes(range(32))
+    edk = kf.parse_raw_private(seed, 'Ed25519')
+    ed_null = kf.pkcs8_wrap('1.3.101.112', der.enc_octets(seed),
+                            der.enc_null())
+    probe('pkcs8-ed25519-null-params', "Ed25519 PrivateKeyInfo with NULL "
+          "parameters (RFC 8410 section 3: MUST be absent)", ed_null, ECC)
+    probe('spki-ed25519-null-params', "Ed25519 SubjectPublicKeyInfo with NULL "
+          "parameters (RFC 8410 section 3: MUST be absent)",
+          kf._spki('1.3.101.112', der.enc_null(), kf.ec_raw_public(edk)), ECC)
+    otherpub = kf.parse_raw_private(bytes(range(1, 33)), 'Ed25519')
+    v2_bad = kf.pkcs8_wrap('1.3.101.112', der.enc_octets(seed), None,
+                           version=1,
+                           public_key=kf.ec_raw_public(otherpub))
+    probe('pkcs8-v2-public-mismatch', "OneAsymmetricKey (v2) whose publicKey "
+          "does not belong to the private key", v2_bad, ECC)
+    v0_pub = der.enc_seq([der.enc_int(0),
+                          der.enc_seq([der.enc_oid('1.3.101.112')]),
+                          der.enc_octets(der.enc_octets(seed)),
+                          der.enc_tagged(1, der.enc_bitstring(
+                              kf.ec_raw_public(edk)), explicit=False)])
+    probe('pkcs8-v1-with-public', "PrivateKeyInfo version 0 carrying the "
+          "v2-only [1] publicKey field", v0_pub, ECC)
+    rsa_absent = kf.pkcs8_wrap(kf.OID_RSA, kf.rsa_pkcs1_private_der(rk), None)
+    probe('pkcs8-rsa-absent-params', "RSA PrivateKeyInfo without the NULL "
+          "parameters (accepted by the model with a note)", rsa_absent, RSA,
+          expect_model='ok')
+    # PBES1 with a 9 byte salt
+    dk = kf._pbkdf1(PW, b'123456789', 7, 'sha1', 16)
+    ct = kf._cbc_pad_encrypt('DES', dk[:8], dk[8:], kf.rsa_pkcs8_der(rk))
+    pbes1_9 = der.enc_seq([
+        der.enc_seq([der.enc_oid('1.2.840.113549.1.5.10'),
+                     der.enc_seq([der.enc_octets(b'123456789'),
+                                  der.enc_int(7)])]),
+        der.enc_octets(ct)])
+    probe('pbes1-salt-9', "PBES1 PBEParameter with a 9-octet salt (RFC 8018 "
+          "A.3: OCTET STRING (SIZE(8)))", pbes1_9, RSA, PW)
+    gcm_rfc = kf.pkcs8_encrypt(p8, PW, cipher='aes128-gcm', iterations=3,
+                               gcm_params='rfc5084')
+    probe('pbes2-gcm-rfc5084', "PBES2 with AES-GCM whose parameters are the "
+          "GCMParameters SEQUENCE {nonce, ICVlen 16} of RFC 5084 (the library "
+          "only understands its own bare-nonce form)", gcm_rfc, ECC, PW,
+          expect_model='ok')
+    zero_iter = kf.pkcs8_encrypt(p8, PW, iterations=1)
+    zero_iter = zero_iter.replace(der.enc_int(1) + b'\x30',
+                                  der.enc_int(0) + b'\x30', 1)
+    probe('pbes2-zero-iterations', "PBKDF2 iterationCount 0 (INTEGER "
+          "(1..MAX))", zero_iter, ECC, PW)
+
+    # -- points --------------------------------------------------------------
+    c521 = kf.CURVES['NIST P-521']
+    gx, gy = kf.ec_public_from_private(c521, 3)
+    nonred = b'\x04' + kf._i2osp(gx + c521.p, 66) + kf._i2osp(gy, 66)
+    probe('sec1-unreduced-x', "SEC1 uncompressed P-521 point whose x is "
+          "x0 + p (still fits 66 octets)", nonred, ECC,
+          model_fn=lambda b, p: kf.parse_raw_public(b, 'NIST P-521'),
+          curve_name='p521')
+    nonred_c = bytes([2 + (gy & 1)]) + kf._i2osp(gx + c521.p, 66)
+    probe('sec1-unreduced-x-compressed', "SEC1 compressed P-521 point whose "
+          "x is x0 + p", nonred_c, ECC,
+          model_fn=lambda b, p: kf.parse_raw_public(b, 'NIST P-521'),
+          curve_name='p521')
+    probe('sec1-infinity', "SEC1 point at infinity (single 00 octet) as a "
+          "public key", b'\x00', ECC,
+          model_fn=lambda b, p: kf.parse_raw_public(b, 'NIST P-256'),
+          curve_name='p256')
+    hybrid = bytes([6 + (y & 1)]) + kf.ec_sec1_point(ek)[1:]
+    probe('sec1-hybrid', "X9.62 hybrid point form (06/07)", hybrid, ECC,
+          model_fn=lambda b, p: kf.parse_raw_public(b, 'NIST P-256'),
+          curve_name='p256')
+    ed448 = kf.parse_raw_private(bytes(range(57)), 'Ed448')
+    raw448 = bytearray(kf.ec_raw_public(ed448))
+    raw448[56] |= 0x01
+    probe('ed448-noncanonical-last-octet', "Ed448 public key whose last "
+          "octet has one of the low 7 bits set (RFC 8032 5.2.3: y >= p, "
+          "decoding fails)",
+          kf._spki('1.3.101.113', None, bytes(raw448)), ECC)
+    ed_x0 = b'\x01' + bytes(30) + b'\x80'
+    probe('ed25519-x0-signbit', "Ed25519 public key y = 1 with the sign bit "
+          "set (RFC 8032 5.1.3 step 4: x = 0 and x_0 = 1, decoding fails)",
+          kf._spki('1.3.101.112', None, ed_x0), ECC)
+    noncanon_y = (kf._P25519 + 1).to_bytes(32, 'little')
+    probe('ed25519-y-ge-p', "Ed25519 public key with y = p + 1 "
+          "(non-canonical)", kf._spki('1.3.101.112', None, noncanon_y), ECC)
+
+    # -- PEM ---------------------------------------------------------------------
+    pem = kf.pem_encode(kf.rsa_spki_der(rk), 'PUBLIC KEY')
+    probe('pem-label-mismatch', "PEM with BEGIN PUBLIC KEY / END PRIVATE KEY",
+          pem.replace('END PUBLIC', 'END PRIVATE'), RSA)
+    probe('pem-junk-after', "PEM followed by non-whitespace text",
+          pem + "\ntrailing text", RSA)
+    probe('pem-junk-in-base64', "PEM with characters outside the base64 "
+          "alphabet inside the body", pem.replace("\n", "\n!*!", 2), RSA)
+    probe('pem-wrong-label', "RSA SubjectPublicKeyInfo under the label "
+          "'EC PRIVATE KEY' (model: accepted with a note)",
+          pem.replace('PUBLIC KEY', 'EC PRIVATE KEY'), RSA,
+          expect_model='ok')
+    enc_pem = kf.pem_encode(good, 'RSA PRIVATE KEY', PW, 'AES-128-CBC')
+    probe('pem-dek-short-iv', "DEK-Info AES-128-CBC with an 8 byte IV",
+          enc_pem.replace(enc_pem.split('AES-128-CBC,')[1][:32],
+                          enc_pem.split('AES-128-CBC,')[1][:16]), RSA, PW)
+    probe('pem-encrypted-no-passphrase', "encrypted PEM, no passphrase",
+          enc_pem, RSA)
+
+    # -- OpenSSH -------------------------------------------------------------
+    line = kf.openssh_public_encode(rk)
+    blob = base64.b64decode(line.split()[1])
+    probe('ssh-public-trailing', "ssh-rsa line whose blob has 4 extra "
+          "bytes", 'ssh-rsa ' + base64.b64encode(blob + bytes(4)).decode(),
+          RSA)
+    dss_in_rsa = 'ssh-rsa ' + kf.openssh_public_encode(
+        {'type': 'DSA', 'p': 23, 'q': 11, 'g': 4, 'y': 8}).split()[1]
+    probe('ssh-public-type-mismatch', "line says ssh-rsa, blob says ssh-dss",
+          dss_in_rsa, RSA)
+    probe('ssh-public-truncated-ecdsa', "ecdsa-sha2-nistp256 line with a "
+          "3-byte blob", "ecdsa-sha2-nistp256 AAAA", ECC)
+    cont = kf.openssh_private_encode(ek, b'c', pem=False)
+
+    def as_pem(b):
+        return kf.pem_encode(b, 'OPENSSH PRIVATE KEY', trailing_newline=True)
+    k2 = dict(ek)
+    k2['d'] = d ^ 2
+    k2['x'], k2['y'] = kf.ec_public_from_private(c256, k2['d'])
+    pub2 = kf._ssh_public_blob(k2)
+    pub1 = kf._ssh_public_blob(ek)
+    swapped = cont.replace(kf._ssh_string(pub1), kf._ssh_string(pub2), 1)
+    probe('ssh-private-public-section-mismatch', "openssh-key-v1 whose "
+          "public section holds a different key than the private section",
+          as_pem(swapped), ECC)
+    badpad = cont[:-1] + bytes([cont[-1] ^ 0x40])
+    probe('ssh-private-bad-padding', "openssh-key-v1 with a wrong padding "
+          "byte", as_pem(badpad), ECC)
+    off = cont.rindex(b'\x01\x02\x03\x04\x01\x02\x03\x04')
+    badcheck = cont[:off + 7] + b'\x05' + cont[off + 8:]
+    probe('ssh-private-checkint', "openssh-key-v1 with different check "
+          "integers", as_pem(badcheck), ECC)
+    two = cont.replace(b'\x00\x00\x00\x01' + kf._ssh_string(pub1),
+                       b'\x00\x00\x00\x02' + kf._ssh_string(pub1), 1)
+    probe('ssh-private-two-keys', "openssh-key-v1 announcing 2 keys",
+          as_pem(two), ECC)
+
+    # -- export side subtleties (no model/library disagreement on import) ----
+    key = RSA.construct((rk['n'], rk['e'], rk['d'], rk['p'], rk['q']))
+    out = key.export_key(format='PEM', pkcs=8,
+                         protection='PBKDF2WithHMAC-SHA256AndAES128-CBC')
+    got = kf.parse_any(out)
+    count('probes')
+    if b'ENCRYPTED PRIVATE KEY' in out and \
+            'EncryptedPrivateKeyInfo' not in got['_format']:
+        deviation('rsa-export-mislabelled',
+                  "RsaKey.export_key(format='PEM', pkcs=8, protection=<any>) "
+                  "WITHOUT passphrase returns a PEM labelled 'ENCRYPTED "
+                  "PRIVATE KEY' that contains a CLEAR PrivateKeyInfo (RFC "
+                  "7468 section 11: that label is for "
+                  "EncryptedPrivateKeyInfo).  Model notes: %r" %
+                  got.get('_notes'))
+    ekey = ECC.construct(curve='p256', d=d)
+    s = ekey.public_key().export_key(format='OpenSSH')
+    r = key.public_key().export_key(format='OpenSSH')
+    count('probes')
+    if s.endswith('\n') and not r.endswith(b'\n'):
+        deviation('ecc-openssh-newline',
+                  "EccKey.export_key(format='OpenSSH') returns str ending in "
+                  "'\\n' (b2a_base64 newline kept); RsaKey / DsaKey return "
+                  "bytes without newline")
+    blob = ekey.export_key(format='DER', passphrase=PW,
+                           protection='PBKDF2WithHMAC-SHA256AndAES128-GCM',
+                           prot_params={'iteration_count': 3})
+    notes = kf.parse_any(blob, PW).get('_notes', [])
+    count('probes')
+    if any('NULL' in n for n in notes):
+        deviation('pbes2-prf-no-null',
+                  "PBES2.encrypt writes the PBKDF2 prf AlgorithmIdentifier "
+                  "without parameters; RFC 8018 A.2/B.1.1 define them as NULL "
+                  "(OpenSSL writes NULL).  Harmless for interoperability.")
+    if any('RFC 5084' in n for n in notes):
+        deviation('pbes2-gcm-params',
+                  "PBES2.encrypt with AES-GCM writes the encryption scheme "
+                  "parameters as a bare OCTET STRING (12 byte nonce) and "
+                  "appends a 16 byte tag; RFC 5084 3.2 defines GCMParameters "
+                  "::= SEQUENCE { aes-nonce OCTET STRING, aes-ICVlen INTEGER "
+                  "DEFAULT 12 } (library-private format)")
+    for c in ('p192', 'p224'):
+        s = ECC.generate(curve=c).public_key().export_key(format='OpenSSH')
+        count('probes')
+        if s.startswith('ecdsa-sha2-nistp'):
+            deviation('ssh-nistp192-224-names',
+                      "EccKey.export_key(format='OpenSSH') names P-192/P-224 "
+                      "'ecdsa-sha2-nistp192/224'; RFC 5656 6.1 / 10.1 only "
+                      "defines the names nistp256/384/521 and identifies "
+                      "other curves by OID ('ecdsa-sha2-1.3.132.0.33'); "
+                      "OpenSSH itself does not support these curves")
+
+
+# ---------------------------------------------------------------------------
+# 6. mutation fuzzing: the model only ever raises ValueError; where the model
+#    accepts a mutated input the library must produce the same numbers or the
+#    difference must be explainable
+# ---------------------------------------------------------------------------
+
+def lib_numbers(blob, passphrase, curve=None):
+    last = None
+    for module, numbers in ((RSA, rsa_numbers), (DSA, dsa_numbers),
+                            (ECC, lambda k: ecc_numbers(k, None))):
+        try:
+            if module is ECC and curve is not None:
+                key = module.import_key(blob, passphrase, curve_name=curve)
+            else:
+                key = module.import_key(blob, passphrase)
+            return numbers(key)
+        except Exception as e:
+            last = e
+    return last
+
+
+def section6():
+    sec = '6'
+    rk = model_rsa_key(1024)
+    c256 = kf.CURVES['NIST P-256']
+    d = RND.randrange(1, c256.n)
+    x, y = kf.ec_public_from_private(c256, d)
+    ek = {'type': 'ECC', 'curve': 'NIST P-256', 'private': True, 'd': d,
+          'x': x, 'y': y}
+    edk = kf.parse_raw_private(bytes(range(32)), 'Ed25519')
+    p, q, g = DSA_DOMAINS[1024]
+    dk = {'type': 'DSA', 'private': True, 'p': p, 'q': q, 'g': g,
+          'y': pow(g, 77, p), 'x': 77}
+    p8e = kf.pkcs8_encrypt(kf.ec_pkcs8_der(ek), PW, prf='sha256',
+                           cipher='aes128-cbc', iterations=2)
+    seeds = [
+        ('rsa pkcs1', kf.rsa_pkcs1_private_der(rk), None),
+        ('rsa spki', kf.rsa_spki_der(rk), None),
+        ('rsa pkcs8', kf.rsa_pkcs8_der(rk), None),
+        ('dsa trad', kf.dsa_traditional_private_der(dk), None),
+        ('dsa spki', kf.dsa_spki_der(dk), None),
+        ('ec sec1', kf.ec_sec1_private_der(ek), None),
+        ('ec pkcs8', kf.ec_pkcs8_der(ek), None),
+        ('ec spki', kf.ec_spki_der(ek), None),
+        ('ec spki comp', kf.ec_spki_der(ek, True), None),
+        ('ed25519 pkcs8', kf.ec_pkcs8_der(edk), None),
+        ('ed25519 pkcs8 v2', kf.ec_pkcs8_der(edk, v2_public=True), None),
+        ('ed25519 spki', kf.ec_spki_der(edk), None),
+        ('ec pkcs8 encrypted', p8e, PW),
+        ('ec pem', kf.pem_encode(kf.ec_sec1_private_der(ek),
+                                 'EC PRIVATE KEY').encode(), None),
+        ('ec pem enc', kf.pem_encode(kf.ec_sec1_private_der(ek),
+                                     'EC PRIVATE KEY', PW,
+                                     'AES-128-CBC').encode(), PW),
+        ('ssh pub rsa', kf.openssh_public_encode(rk).encode(), None),
+        ('ssh pub ec', kf.openssh_public_encode(ek).encode(), None),
+        ('ssh pub ed', kf.openssh_public_encode(edk).encode(), None),
+        ('ssh priv ec', kf.openssh_private_encode(ek, b'c').encode(), None),
+        ('ssh priv ed', kf.openssh_private_encode(edk, b'c').encode(), None),
+        ('ssh priv rsa', kf.openssh_private_encode(rk, b'c').encode(), None),
+    ]
+    rounds = 60 if QUICK else 400
+    model_only = {}
+    for label, blob, pw in seeds:
+        for _ in range(rounds):
+            b = bytearray(blob)
+            op = RND.randrange(5)
+            if op == 0:
+                b[RND.randrange(len(b))] ^= 1 << RND.randrange(8)
+            elif op == 1:
+                b[RND.randrange(len(b))] = RND.choice([0, 0x80, 0xFF, 0x30,
+                                                       0x02, 0x04])
+            elif op == 2:
+                del b[RND.randrange(len(b))]
+            elif op == 3:
+                b.insert(RND.randrange(len(b) + 1), RND.getrandbits(8))
+            else:
+                i = RND.randrange(len(b))
+                b[i:i + RND.randrange(1, 5)] = b''
+            b = bytes(b)
+            count('mutations')
+            try:
+                got = kf.parse_any(b, pw)
+            except ValueError:
+                continue
+            except Exception as e:
+                mismatch(sec, "model raised %s on mutated %s: %s / input %s" %
+                         (type(e).__name__, label, e, b.hex()
+                          if b[:1] == b'\x30' else repr(b)))
+                continue
+            count('mutations accepted by the model')
+            lib = lib_numbers(b, pw)
+            if isinstance(lib, Exception):
+                # explained when the numbers are arithmetically inconsistent:
+                # the model only parses, the library also validates
+                if got['type'] == 'RSA':
+                    why = kf.rsa_consistency_problems(got)
+                elif got['type'] == 'DSA':
+                    why = kf.dsa_consistency_problems(got)
+                else:
+                    why = []
+                if why:
+                    count('mutations: valid encoding of inconsistent numbers')
+                else:
+                    model_only.setdefault(label, []).append((b, lib))
+                continue
+            want = kf.strip_meta(got)
+            if lib.get('compressed', 0) is None:
+                want['compressed'] = None
+            if lib['type'] == 'RSA' and lib['private'] and \
+                    'openssh' in got['_format']:
+                lib = dict(lib, p=lib['q'], q=lib['p'], dp=lib['dq'],
+                           dq=lib['dp'], qinv=want['qinv'])
+            if lib['type'] == 'RSA' and lib['private'] and \
+                    kf.rsa_consistency_problems(got):
+                # the library recomputes the CRT values
+                for k2 in ('dp', 'dq', 'qinv'):
+                    want.pop(k2), lib.pop(k2)
+            if lib != want:
+                mismatch(sec, "mutated %s: numbers differ\n   model %r\n"
+                         "   lib   %r" % (label, want, lib))
+    for label, items in sorted(model_only.items()):
+        b, e = items[0]
+        mismatch(sec, "%d mutated '%s' inputs accepted by the model but "
+                 "refused by the library without explanation, e.g. %s: %s\n"
+                 "   input %r" %
+                 (len(items), label, type(e).__name__, str(e)[:70], b))
+
+
+# ---------------------------------------------------------------------------
+
+def main():
+    t0 = time.time()
+    if ADAPTER:
+        print("NOTE: ref.ciphers / ref.modes missing - using the library "
+              "adapter (development only)")
+    for name, fn in (('1 RSA exports', section1_rsa),
+                     ('1 DSA exports', section1_dsa),
+                     ('1 ECC exports', section1_ecc),
+                     ('2 model blobs -> library', section2),
+                     ('3 DER primitives', section3),
+                     ('4 padding / RFC1751', section4),
+                     ('5 probes', section5),
+                     ('6 mutation fuzzing', section6)):
+        t = time.time()
+        before = len(MISMATCHES)
+        fn()
+        print("section %-26s %6.1f s  %d mismatches" %
+              (name, time.time() - t, len(MISMATCHES) - before))
+    print()
+    print("COUNTS")
+    for k in sorted(COUNTS):
+        print("  %-48s %d" % (k, COUNTS[k]))
+    print()
+    print("EXPORT COMBINATIONS SEEN (%d distinct, protections collapsed)" %
+          len(EXPORT_COMBOS))
+    seen = set()
+    for kind, desc in EXPORT_COMBOS:
+        k2 = kind.split('[')[0] + ('-public' if 'public' in kind else '')
+        import re
+        d2 = re.sub(r"protection='[^']*'", "protection=<P>", desc)
+        if (k2, d2) not in seen:
+            seen.add((k2, d2))
+            print("  %-11s %s" % (k2, d2))
+    print("  <P> = one of %d strings: PBKDF2WithHMAC-{%s}And{%s} and "
+          "scryptAnd{...}" % (len(PROTECTIONS), ",".join(HASHES),
+                              ",".join(CIPHERS)))
+    print()
+    print("ANALYSED LIBRARY DEVIATIONS (%d)" % len(DEVIATIONS))
+    for ident, text in DEVIATIONS:
+        print("  [%s] %s" % (ident, text))
+    print()
+    print("total %.1f s" % (time.time() - t0))
+    print("MISMATCHES: %d" % len(MISMATCHES))
+    return 1 if MISMATCHES else 0
+
+
+if __name__ == '__main__':
+    sys.exit(main())
